@@ -7,6 +7,7 @@ import (
 	"os"
 	"strings"
 	"sync"
+	"syscall"
 	"testing"
 	"time"
 
@@ -25,13 +26,23 @@ func TestHelperFS(t *testing.T) {
 		t.Fatal(err)
 	}
 	var mmu sync.Mutex
+	var moff int64
+	if st, err := mf.Stat(); err == nil {
+		moff = st.Size()
+	}
 	mark := func(s string) {
+		// pwrite64, not write: the tracer may be injecting errors into write(2)
 		mmu.Lock()
-		mf.Write([]byte("VERIFMARK " + s + "\n"))
+		b := []byte("VERIFMARK " + s + "\n")
+		syscall.Pwrite(int(mf.Fd()), b, moff)
+		moff += int64(len(b))
 		mmu.Unlock()
 	}
 	b, err := ctlog.NewLocalBackend(context.Background(), dir, discardLogger)
 	if err != nil {
+		if os.Getenv("VERIF_FS_FAULTS") != "" {
+			return // an injected error hit the start-up
+		}
 		t.Fatal(err)
 	}
 	rng := NewRng(envInt("VERIF_FS_SEED", 1), "fshelper")
